@@ -2,7 +2,7 @@
 from ..core import Report, Finding
 from ..facts import Facts
 from .. import oracle, encprops
-from ..encsum import all_summaries, enumerate_image
+from ..encsum import all_summaries, enumerate_image, summary_of
 
 LEVEL = 'proof'
 
@@ -13,8 +13,13 @@ def reverse_walk(rep, facts, mns, rule):
     independent decoder written from the ISA listing."""
     sums = all_summaries(facts)
     images = {}
+    unknown = set()
     for m in mns:
-        s = sums[m]
+        s = summary_of(rep, sums, m)
+        if s is None:
+            unknown.add(m)          # the image of this mnemonic is not derived: nothing is concluded about the halfwords it owns
+            images[m] = set()
+            continue
         if s.always_refused or s.bits is None:
             images[m] = set()
             continue
@@ -35,6 +40,8 @@ def reverse_walk(rep, facts, mns, rule):
         got = owner.get(h)
         if want is not None:
             legal += 1
+            if want in unknown:
+                continue
             if got is None:
                 missing.setdefault(want, []).append(h)
             elif got != want or h in multi:
@@ -45,6 +52,8 @@ def reverse_walk(rep, facts, mns, rule):
     rep.count('legal RV32C integer halfwords (oracle)', legal)
     rep.analysed['image sizes'] = {m: len(i) for m, i in images.items()}
     for m in mns:
+        if m in unknown:
+            continue
         enc = sums[m].encoder
         line = encprops.fn_line(facts, enc)
         ok = True
@@ -81,12 +90,13 @@ def run(repo, tier):
     rep.trusted_base = ['CPython ast', 'bbverif.bitdom transfer functions', 'bbverif.oracle RVC table and rvc_decode (from the ISA manual)']
     rep.not_decided = ['value computed by eval() for an operand expression (C11 trusted base)']
     mns = encprops.check_tables(rep, facts, 'R2.tables', oracle.RVC, compressed=True)
-    encprops.check_layout(rep, facts, mns, 'R2.layout')
-    encprops.check_injective(rep, facts, mns, 'R2.injective')
-    encprops.check_acceptance(rep, facts, mns, 'R2.legal-set')
-    reverse_walk(rep, facts, mns, 'R2.reverse')
-    encprops.check_wiring(rep, facts, 'R2.wiring', True, repo.text['docs/instruction_reference.rst'])
-    encprops.check_resolve_instructions(rep, facts, 'R2.pack')
+    at = encprops.attempt
+    at(rep, encprops.check_layout, rep, facts, mns, 'R2.layout')
+    at(rep, encprops.check_injective, rep, facts, mns, 'R2.injective')
+    at(rep, encprops.check_acceptance, rep, facts, mns, 'R2.legal-set')
+    at(rep, reverse_walk, rep, facts, mns, 'R2.reverse')
+    at(rep, encprops.check_wiring, rep, facts, 'R2.wiring', True, repo.text['docs/instruction_reference.rst'])
+    at(rep, encprops.check_resolve_instructions, rep, facts, 'R2.pack')
     rep.floor('mnemonic bindings', 27)
     rep.floor('encoder summaries', 27)
     rep.floor('parse paths analysed', 15)
